@@ -55,6 +55,9 @@ class ArbiterWorld(World):
         aw = rng.range(3, 8)
         feats = rng.subset(FEATS)
         n = rng.range(1, 5) if not rng.chance(0.12) else rng.range(6, 8)
+        if rng.chance(0.04):
+            n = rng.range(9, 18)        # more initiators than any small-N special case covers
+            aw = max(aw, 6)
         intrs = []
         for i in range(n):
             ig = rng.choice([x for x in (8, 16, 32, 64) if g <= x <= dw])
@@ -66,7 +69,7 @@ class ArbiterWorld(World):
             intrs.append({"g": ig, "feats": sorted(f)})
         mode = rng.wchoice([("byz", 4), ("proto", 3), ("mixed", 3)])
         return {"aw": aw, "dw": dw, "g": g, "feats": sorted(feats), "intrs": intrs, "mode": mode,
-                "feats_as": rng.choice(["str", "str", "enum"]),
+                "feats_as": rng.choice(["str", "str", "enum", "frozenset", "list", "tuple"]),
                 "mid_elab": rng.range(1, n) if (n > 1 and rng.chance(0.12)) else None,
                 "decoy": int(rng.chance(0.1)),
                 "reset_at": rng.range(5, 60) if rng.chance(0.15) else None,
@@ -109,14 +112,26 @@ class ArbiterWorld(World):
         aw, dw, g = config["aw"], config["dw"], config["g"]
         feats = set(config["feats"])
         # the documented type of a feature is wishbone.Feature; strings are accepted too
-        spell = (lambda fs: {wishbone.Feature(f) for f in fs}) if config.get("feats_as") == "enum" \
-            else (lambda fs: set(fs))
+        spell = hw.feature_speller(config.get("feats_as"))
         dut = hw.must_accept("C08" if "C08" in props else "C09",
                              f"wishbone.Arbiter(addr_width={aw}, data_width={dw}, granularity={g}, "
                              f"features={sorted(feats)})", wishbone.Arbiter,
                              **hw.spelled(config.get("omit"), {"granularity": dw, "features": set()},
                                           addr_width=aw, data_width=dw, granularity=g,
                                           features=spell(feats)))
+        me = "C08" if "C08" in props else "C09"
+
+        def need_members(iface, fs, what):
+            # every requested optional signal must exist (it is forwarded / decides when the bus
+            # counts as held); however the feature collection was spelled
+            for f_ in FEATS:
+                if (f_ in fs) != hasattr(iface, f_):
+                    raise Violation(me, "optional-signal-does-not-follow-requested-features", 0,
+                                    f"{what}: features {sorted(fs)} (given as "
+                                    f"{config.get('feats_as', 'set')}) but signal {f_!r} is "
+                                    f"{'present' if hasattr(iface, f_) else 'missing'}",
+                                    key=f"feature-signal:{f_}")
+        need_members(dut.bus, feats, "arbiter bus")
         intrs = []
         mid = config.get("mid_elab")
         for i, ic in enumerate(config["intrs"]):
@@ -127,6 +142,7 @@ class ArbiterWorld(World):
                 stats.fault("elaborated_while_still_being_populated")
             ib = hw.construct(wishbone.Interface, addr_width=aw, data_width=dw,
                               granularity=ic["g"], features=spell(ic["feats"]), path=(f"i{i}",))
+            need_members(ib, set(ic["feats"]), f"initiator {i}")
             if all(o in ic["feats"] for o in ("err", "rty") if o in feats):
                 hw.must_accept("C08" if "C08" in props else "C09",
                                f"Arbiter.add(initiator granularity={ic['g']}, features={ic['feats']})",
@@ -154,14 +170,14 @@ class ArbiterWorld(World):
             hw.elaborate_once(d2)
             stats.fault("second_instance_in_process")
         n = len(intrs)
-        if n == 0 or n > 8:
+        if n == 0:
             from simkit.core import Refused
             raise Refused("no initiators")
         top, rst = hw.make_top_with_reset(dut)
         sim = hw.build_sim(top)
         b = dut.bus
         reset_at = config.get("reset_at")
-        tagbits = 3
+        tagbits = max(3, (len(config["intrs"]) - 1).bit_length())
         tagmask = (1 << tagbits) - 1
         c08 = "C08" in props
         c09 = "C09" in props
